@@ -51,7 +51,7 @@ Proof.
   destruct (h_resp m) as [r|] eqn:Hr; [|discriminate].
   assert (Hp : pending (pend_c0 cn) = Some ch) by (unfold pend_c0; destruct (c_cc cn); [exact Hv|discriminate]).
   split; [exact Hp|].
-  destruct Har as [Hg| | |cl'|cl'|cl' r'|cl' ch'|cl' ch' r']; cbn.
+  destruct Har as [Hg| | |cl'|cl'|cl' r'|cl' sec' ch'|cl' ch' r'|cl']; cbn.
   - exfalso. destruct Hg as [Hg|[Hg|[Hg1 Hg2]]]; try congruence.
     rewrite Hg1, Hg2 in H0. cbn in H0. discriminate.
   - exfalso. match goal with H1 : h_cid m = 0, H2 : h_new m = true |- _ => rewrite H1, H2 in H0 end.
@@ -62,6 +62,7 @@ Proof.
   - exfalso. congruence.
   - split; reflexivity.
   - split; [reflexivity|]. destruct (rf_frame mf pb s (c_addr cn)) as (_ & _ & _ & _ & Hnn); exact Hnn.
+  - exfalso. congruence.
 Qed.
 
 (* pending challenges after a handshake: on the acting connection what the handler left, elsewhere unchanged or gone *)
@@ -139,6 +140,7 @@ Proof.
   - (* EExpire *) destruct (clients s x); split; try (cbn; lia); intros k' n H; left; exact H.
   - (* EDelAnon *) destruct (v_anon_delete v); split; try (cbn; lia); intros k' n H; left; exact H.
   - (* ERekey *) unfold rekey. destruct (clients s x); split; try (cbn; lia); intros k' n H; left; exact H.
+  - (* ECorrupt *) destruct (clients s x); split; try (cbn; lia); intros k' n H; left; exact H.
   - (* EClose *) split; [rewrite close_nonce; lia|]. intros k' n H.
     destruct (close_pending s k k') as [E|E]; rewrite E in H; [left; exact H|discriminate].
   - (* EOpen *) split; [cbn [next_nonce set_conns]; rewrite close_nonce; lia|]. intros k' n H.
@@ -248,7 +250,7 @@ Proof.
   destruct (auth (v_first_keeps v) s (pend_c0 cn) (c_addr cn) h) as [[s1 c1] ar] eqn:Ha.
   pose proof (auth_cases hmac mf pb (v_first_keeps v) s (pend_c0 cn) (c_addr cn) h) as Har. rewrite Ha in Har.
   rewrite (handle_out_auth hmac mf pb v s k h cn Hc _ _ _ Ha) in Ho. injection Ho as ->.
-  inversion Har as [| | | | | |cl ch Hb Hn Hcl He Hr Hp|]; subst.
+  inversion Har as [| | | | | |cl sec ch Hb Hn Hcl He Hst Hr Hp| |]; subst.
   exists ch. split.
   - unfold verif_target. rewrite Hc, Hb, Hn, Hcl, He, Hr. cbn [orb].
     assert (H0 : (h_cid h =? 0) && (rl_deny s || h_new h) = false).
